@@ -182,4 +182,25 @@ PROPS = {
                      "delivery to slow or disconnected subscribers (NATS at-most-once) is outside the model: the theorem is about what the store publishes"],
         "assumptions": [],
     },
+    "C13": {
+        "required_theorems": ["c13_point_verdict", "c13_operators", "c13_contains_iff", "c13_float_trichotomy", "c13_schedule_verdict", "c13_condition_latest",
+                              "c13_condition_latest_history", "c13_history", "c13_rule_active_iff_all", "c13_actions_once_per_change", "c13_setvalue_payload",
+                              "gen_rule_pinned", "gen_rule_constants_pinned"],
+        "n": {"quick": 1500, "thorough": 30000},
+        "thorough_seeds": 3,
+        "rule": "the real RuleClient (NewRuleClient + Run) on a bare embedded NATS server; per case a random rule: 0-3 conditions (point-value with node/type/key filters, all value types "
+                "incl. unknown ones, all operators incl. unknown ones, thresholds incl. -0, inf, NaN, 5e-324; schedule conditions with weekdays/dates, some unparsable; unknown condition types; "
+                "stale error texts), 0-2 actions and inactive-actions (set-value to t1/t2/own node/missing node or type, unknown actions, stale errors), then 1-6 events: batches of 1-3 points "
+                "from 5 nodes (incl. the rule itself, trigger-typed points), schedule ticks at explicit times over four days, threshold / action-value configuration changes (only without schedule "
+                "conditions: they evaluate at the wall clock). Observation = every publication of the rule in order (node,type,value,text,origin) + final flags; oracle = per condition the "
+                "comparison of the last matching point computed with Lean Float arithmetic / the C14 window, rule = conjunction, firings on targets; distinct = distinct case line",
+        "trusted": ["embedded nats-server + nats.go: per-publisher in-order delivery to one subscription (used to collect the rule's publications up to a marker)",
+                    "the verif hook VerifRuleFeed hands a batch to the Run loop through the same channel the up.<parent>.* callback uses; the callback itself (subject split, protobuf decode) is three lines outside the model"],
+        "modelled": ["client/rule.go ruleProcessPoints, processError, ruleRunActions (set-value and unknown actions), ruleInactiveActions, sendPoint and the run closure modelled by hand (Siot/Model/Rule.lean); shape re-extracted on every run (gen_rule_pinned)",
+                     "float64 comparisons are modelled on bit patterns (sign-magnitude order, NaN unordered); the driver cross-checks them against Lean's Float on every case",
+                     "notify and playAudio actions are not modelled (they need a store / an audio device; playAudio calls log.Fatal on a missing file) and are not generated",
+                     "time.Now() stamps of published points are not compared; configuration changes go through data.MergePoints (C10/C11 model) and are restricted to the value field",
+                     "the 10 s schedule ticker is replaced by explicit tick events (a case lasts milliseconds)"],
+        "assumptions": [],
+    },
 }
